@@ -47,7 +47,7 @@ Definition pub_mismatch (c : pub_case) : bool :=
     may carry the publish mark (whatever else they have been through) *)
 Definition pub_violates (c : pub_case) : bool :=
   negb (forallb (fun m => negb (pm_mark m)) (pk_heap c)
-        && pub_monitor_any (pk_st c) (pk_obs c) (pk_tab c)
+        && pub_monitor_full (pk_st c) (pk_obs c) (pk_tab c)
         && close_eqb (1%nat, snd (fst (pk_close c))) (fst (fst (pk_close c)), snd (pk_close c))).
 
 (** * subscriber stacks *)
